@@ -36,6 +36,8 @@ def gen_case(rng: random.Random, tier: str) -> dict:
         if frozenset(fs) in seen:
             continue
         seen.add(frozenset(fs))
+        if rng.random() < 0.2:  # a numeric scale stays with the term (and is all that is left when every variable goes)
+            fs = [rng.choice(["2", "3", "0.5", "10"])] + fs
         terms.append(fs)
     n = 6
     return {
@@ -140,7 +142,10 @@ def judge(case) -> Outcome:
         out.fail("c20.harness", f"original formula did not give one column per term: {[c.shape for c in acc]}")
         return out
     fd = [c[:, 0] for c in acc]
-    nlit = sum(1 for e in exp if all(x in ("0", "1") for x in e))
+    def is_lit(x):
+        return x.replace(".", "", 1).isdigit()
+
+    nlit = sum(1 for e in exp if all(is_lit(x) for x in e))
     for efr in (False, True):
         try:
             with quiet():
@@ -154,7 +159,7 @@ def judge(case) -> Outcome:
             out.fail("c20.term_count", f"{f!r} wrt {wrt}: {len(dc)} structure rows for {len(exp)} terms")
             continue
         for i, e in enumerate(exp):
-            const = all(x in ("0", "1") for x in e)
+            const = all(is_lit(x) for x in e)
             if e == ["0"]:
                 ok = dc[i].shape[1] in (0, 1) and np.allclose(fd[i], 0) and (dc[i].shape[1] == 0 or np.allclose(dc[i][:, 0], 0))
                 if efr and dc[i].shape[1] == 0:
